@@ -214,6 +214,28 @@ def diverges_with_err(n):
     return False
 
 
+def skips_rest(ifnode):
+    """an If one of whose branches leaves the enclosing block early without reporting an error"""
+    for br in (ifnode.get('th'), ifnode.get('el')):
+        if br is None:
+            continue
+        stack = [br]
+        while stack:
+            x = stack.pop()
+            k = x.get('k')
+            if k in ('Closure', 'For', 'While', 'Loop'):
+                continue
+            if k in ('Continue', 'Break'):
+                return True
+            if k == 'Ret':
+                e = x.get('e')
+                if e is None or not any(is_err_ctor(y) for y in walk_noclosure(e)):
+                    return True
+                continue
+            stack.extend(kids(x))
+    return False
+
+
 def tail_is_err(n):
     """block / expression whose value is directly an Err(..) constructor call"""
     while isinstance(n, dict) and n.get('k') == 'Block':
@@ -253,6 +275,7 @@ class Flow:
         self.track_idx = track_idx
         self.tagger = tagger
         self._active = []
+        self._conds = {}
         self.ret = self.run_fn(fn, param_vals, (), ())
 
     # ------------------------------------------------------------------ driver
@@ -443,6 +466,11 @@ class Flow:
     def ev_Block(self, fr, n, ctx, stack):
         for s in n['st']:
             self.ev(fr, s, ctx, stack)
+            # `if c { continue / break / return <non-Err> }`: the rest of the block runs only when !c
+            if s.get('k') == 'If' and skips_rest(s):
+                cf = self._conds.get(id(s), EMPTY)
+                if cf:
+                    ctx = ctx + (('if', cf, s, 'skip'),)
         if 'e' in n:
             return self.ev(fr, n['e'], ctx, stack)
         return EMPTY
@@ -541,6 +569,7 @@ class Flow:
     def ev_If(self, fr, n, ctx, stack):
         c = self.ev(fr, n['c'], ctx, stack)
         cf = flat(c)
+        self._conds[id(n)] = cf
         th, el = n['th'], n.get('el')
         g_th = diverges_with_err(th) or tail_is_err(th)
         g_el = el is not None and (diverges_with_err(el) or tail_is_err(el))
